@@ -276,15 +276,14 @@ func (s *Session) SetEntry(pkgPath, fname string, stubs map[string]string) error
 	}
 	s.entry = fn
 	s.i.stubs = map[string]externalFn{}
+	s.i.stubFns = map[string]*ssa.Function{}
 	for target, repl := range stubs {
 		k := strings.LastIndex(repl, ".")
 		f := find(repl[:k], repl[k+1:])
 		if f == nil {
 			return fmt.Errorf("stub %s not found", repl)
 		}
-		s.i.stubs[target] = func(fr *frame, args []value) value {
-			return call(fr.i, fr, token.NoPos, f, args)
-		}
+		s.i.stubFns[target] = f
 	}
 	// verify that every stub target exists in the program, so that a
 	// renamed function cannot silently disable a stub.
